@@ -12,8 +12,10 @@ package vrt
 
 import (
 	"fmt"
+	"os"
 	"runtime"
 	"runtime/debug"
+	"strconv"
 	"strings"
 	"sync"
 	"time"
@@ -428,10 +430,41 @@ func (s *sched) choose(kind string, n int, curFirst bool, desc func() string) in
 // Alternative 0 is the default; any other costs one deviation.
 func Choose(kind string, n int) int {
 	s := S
+	if s == nil && n > 1 {
+		return initChoice(n)
+	}
 	if s == nil || s.aborting || n <= 1 {
 		return 0
 	}
 	return s.choose(kind, n, true, func() string { return kind })
+}
+
+// Choices taken OUTSIDE a controlled execution - package initialisation of the
+// code under test (a map ranged over in a package-level initialiser) - come
+// from the environment variable VRT_INIT_CHOICES (comma separated, applied
+// modulo the number of alternatives, 0 when exhausted or unset), so that a
+// harness can start one process per initialisation order.
+var (
+	initChoices   []int
+	initChoicePos int
+	initParsed    bool
+)
+
+func initChoice(n int) int {
+	if !initParsed {
+		initParsed = true
+		for _, f := range strings.Split(os.Getenv("VRT_INIT_CHOICES"), ",") {
+			if v, err := strconv.Atoi(strings.TrimSpace(f)); err == nil && v >= 0 {
+				initChoices = append(initChoices, v)
+			}
+		}
+	}
+	if initChoicePos >= len(initChoices) {
+		return 0
+	}
+	c := initChoices[initChoicePos] % n
+	initChoicePos++
+	return c
 }
 
 // point is a scheduling point of the running thread: publish the pending
